@@ -10,8 +10,10 @@ B streams: csvfile.load/table (tables x option product x EOL x BOM x mode), csvf
       csvfile.save (save_csv bytes on disk), csvr.reader (csv.reader on written lines, soup, several
       lines), csvr.nllines (newline=''), csvr.native (load_native_csv), csvr.simple (load_simple_csv)
 C evaluators: roundtrip (one transcription per header mode), refused, empty_file, csv_module
-      (csv.reader / load_native_csv / load_simple_csv agreement), reader_agrees, reader_vs_parse,
-      native_agrees, simple_agrees, simple_soup, strip_field, strip_line_clean, keep_empty_lines
+      (csv.reader / load_native_csv / load_simple_csv agreement), eol_bom_invariant (LF/CRLF x BOM x
+      read mode, also under strip_field / strip_line), reader_agrees, reader_vs_parse, native_agrees
+      (also files that start with blank lines), simple_agrees, simple_soup, strip_field,
+      strip_line_clean, keep_empty_lines (the last three in text and in binary read mode)
 """
 import atexit
 import csv
@@ -53,6 +55,13 @@ MANIFEST = dict(
     "the surrounding blanks), C14_strip_line_clean / C14_strip_line_clean_cells (strip_line=True is the identity on tables whose written lines have no outer "
     "blank; C14_strip_line_cex shows it is not strip_field), C14_keep_empty_lines / _positional (skip_empty_lines=False: every "
     "row after the header yields a record, a blank line the record {first name: '', others: None}). "
+    "Strip options in binary read mode (open finding C14-g: bytes.strip() removes ASCII blanks only): C14_strip_field_binary "
+    "(what the code does: the table of bytes.strip()-ed cells), C14_binary_strip_field_partial (for every ASCII-transparent encoder "
+    "and every table no cell of which has a non-ASCII-blank str.isspace() character at an edge, binary mode with strip_field yields "
+    "the text-mode table of C14_strip_field, encoded), the full statement kept as C14_binary_strip_field_stmt and refuted by "
+    "C14_binary_strip_field_cex / C14_binary_strip_cex (x + U+00A0; a line that is only \\x1c: EOFError in text mode, a record in "
+    "binary mode), C14_strip_line_clean_binary. C14_native_leading_blank_cex: a blank line before the header makes csv.DictReader "
+    "(column_names=None) return every line under the key None - the standard reader's behaviour, load_csv yields the table. "
     "The models are compared with the real code on real files for the whole option product (including every "
     "SyntaxError/ReferenceError/KeyError/EOFError/ValueError/csv.Error/TypeError branch): list(load_csv(...)), the file layer "
     "with open()/readline() (also newline=''), the bytes save_csv writes, csv.reader on written lines and soup (one line, "
@@ -60,7 +69,10 @@ MANIFEST = dict(
     note="UTF-8 codec, universal-newline layer, tell/seek of text files, csv.writer and csv.reader (CPython _csv.c, "
     "field_size_limit not modelled) / csv.DictReader are modelled, not verified "
     "(each validated by its own stream); binary mode takes names as bytes. Model follows the code with fix patches C14-a..f. "
-    "strip_line on lines WITH outer blanks has no closed form (it depends on the quoting of the outer cells); covered by B.",
+    "strip_line on lines WITH outer blanks has no closed form (it depends on the quoting of the outer cells); covered by B. "
+    "Open finding C14-g (binary read mode + strip option + a non-ASCII-blank str.isspace() character at the edge of a cell/line): "
+    "the evaluators strip_field and eol_bom_invariant compare binary mode with the encoded text-mode table and suppress only "
+    "failures of exactly that shape inside that class; binary + strip with ASCII blanks is checked like everything else.",
     design_ref="5/C14",
 )
 
@@ -1522,6 +1534,7 @@ def run(ctx):
         "process_field/process_line/parse_csv_line callables, other encodings and the ignored EOL argument are outside the model",
         "an empty file (no header, no rows) is refused with EOFError by an explicit branch; the no-header modes are stated for tables with at least one non-empty row",
         "model follows the code with fix patches C14-a..f applied",
+        "binary read mode strips with bytes.strip() (ASCII blanks), text mode with str.strip(): open finding C14-g; the model follows the code",
         "csv.reader: model of CPython 3.12 Modules/_csv.c parse_process_char / Reader_iternext for dialect excel + delimiter, strict=True (no escapechar, no skipinitialspace, QUOTE_MINIMAL); csv.field_size_limit() (131072) not modelled; validated by stream csvr.reader",
         "csv.DictReader (restkey=None, restval=None, blank rows skipped, fieldnames from the first row when not given) is modelled and validated by stream csvr.native; a file opened with newline='' by stream csvr.nllines",
         "load_simple_csv is modelled as load_csv with the split parser (loadLinesWith; Lean lemma loadLinesWith parseLine = loadLines), validated by stream csvr.simple; in binary mode it raises TypeError (str argument to bytes.rstrip)",
